@@ -21,6 +21,7 @@ fn base(name: &str, a: AppScript, b: AppScript) -> Scenario {
         app_b: b,
         horizon_s: 20,
         rng_seed: 1,
+        cycles: 1,
     }
 }
 
